@@ -18,7 +18,7 @@ PROPS = {
     },
 }
 
-GEN = "seeded generator over scheme configurations (max/supported degree, enforced bound lists, hiding support, num_vars), polynomial shapes (full, random, zero, constant, low-order zeros, top monomial, sparse / mixed monomials), in-domain (degree bound, hiding bound) pairs with tight (bound == degree, including bound 0 for constants), loosest and arbitrary bounds and degrees at the maximum / one below / around powers of two, univariate Ligero sizes on both sides of the 2-row / 4-row matrix boundary, hostile query sets (several polynomials per point label, labels sharing a point value, one polynomial at many points, label orders differing from insertion order) and list permutations; 11 schemes (Marlin, Sonic, IPA, PST13, Hyrax, univariate/multilinear Ligero, Brakedown through the trait; KZG10, multilinear PST, streaming KZG directly; thorough adds BLS12-377 instances). API surface: in a quarter of the scenarios the committer / verifier keys, in another quarter the commitments, are copies that went through canonical serialization (all four compress / validate modes); the library calls are made with slices / plain iterators, with lazy iterators without a length hint (every second call) and, where nothing needs randomness, without an RNG (every fourth call). In C01, C02, C03, C05, C06, C08, C10, C11, C12 and C18 half of the linear-code worlds come from the public parameter constructors (security level 64 / 100 / 128, inverse rate 2..8 including non-powers of two, well-formedness check on / off) instead of setup / trim; hiding support is drawn up to the supported and the maximum degree. Workloads named `<scheme>/large` repeat the same cases on configurations beyond a thousand coefficients (univariate 1023..2100 / thorough ..4200, 10 or 12 variables, PST13 4 variables of degree 11). "
+GEN = "seeded generator over scheme configurations (max/supported degree, enforced bound lists, hiding support, num_vars), polynomial shapes (full, random, zero, constant, low-order zeros, top monomial, sparse / mixed monomials), in-domain (degree bound, hiding bound) pairs with tight (bound == degree, including bound 0 for constants), loosest and arbitrary bounds and degrees at the maximum / one below / around powers of two, univariate Ligero sizes on both sides of the 2-row / 4-row matrix boundary, hostile query sets (several polynomials per point label, labels sharing a point value, one polynomial at many points, label orders differing from insertion order) and list permutations; 11 schemes (Marlin, Sonic, IPA, PST13, Hyrax, univariate/multilinear Ligero, Brakedown through the trait; KZG10, multilinear PST, streaming KZG directly; thorough adds BLS12-377 instances). API surface: every fifth world is trimmed from universal parameters that were serialized and loaded again; in a quarter of the scenarios the committer / verifier keys, in another quarter the commitments, are copies that went through canonical serialization (all four compress / validate modes); the library calls are made with slices / plain iterators, with lazy iterators without a length hint (every second call) and, where nothing needs randomness, without an RNG (every fourth call). In C01, C02, C03, C05, C06, C08, C10, C11, C12 and C18 half of the linear-code worlds come from the public parameter constructors (security level 64 / 100 / 128, inverse rate 2..8 including non-powers of two, well-formedness check on / off) instead of setup / trim; hiding support is drawn up to the supported and the maximum degree. Workloads named `<scheme>/large` repeat the same cases on configurations beyond a thousand coefficients (univariate 1023..2100 / thorough ..4200, 10 or 12 variables, PST13 4 variables of degree 11). "
 DIST = " Distinct = distinct SHA-256 hashes of (scheme, class, full case descriptor); a case is non-trivial when its oracle preconditions held (skipped cases are reported separately and never counted)."
 
 PROPS.update({
@@ -63,7 +63,7 @@ PROPS.update({
     },
     "C06": {
         "title": "Linear-combination openings",
-        "rule": GEN + "LC sets: 1..4 combinations of 1..6 terms, coefficients in {0,1,-1,random}, repeated labels, LCTerm::One terms, 1..3 point labels some sharing a point value, several LCs per point. Oracles: honest open_combinations/check_combinations accepts the true values (recomputed from the polynomials); a changed claimed value, two claimed values changed by (+d, -d) or exchanged, verifier-side coefficient (on a non-vanishing evaluation), constant, or transmitted evaluation (plain, and shifted with all LC claims recomputed consistently) is not accepted; a combination mixing a degree-bounded polynomial with other terms is refused by open_combinations." + DIST,
+        "rule": GEN + "LC sets: 1..4 combinations of 1..6 terms (one in twelve with 20..90 terms), combination labels that coincide with the label of their own single polynomial or of an unrelated polynomial, coefficients in {0,1,-1,random}, repeated labels, LCTerm::One terms, 1..3 point labels some sharing a point value, several LCs per point. Oracles: honest open_combinations/check_combinations accepts the true values (recomputed from the polynomials); a changed claimed value, two claimed values changed by (+d, -d) or exchanged, verifier-side coefficient (on a non-vanishing evaluation), constant, or transmitted evaluation (plain, and shifted with all LC claims recomputed consistently) is not accepted; a combination mixing a degree-bounded polynomial with other terms is refused by open_combinations." + DIST,
         "required_classes": ["honest-lc-accepted", "lc-value-perturbed", "lc-coefficient-perturbed", "lc-constant-perturbed", "degree-bound-mix-refused", "evals-perturbed", "lc-values-cancelling-pair"],
         "technique": "runtime monitoring: generated LC workloads, accept-oracle + single-fault reject-oracle with truth recomputation",
         "level_text": "Exploration of LC shapes the suite never builds (constants, zero/negative coefficients, repeated labels, shared point values) through both the Marlin-style overrides and the trait default, with fault injection on every verifier-visible LC component.",
@@ -72,8 +72,8 @@ PROPS.update({
     },
     "C08": {
         "title": "Commitments are the key-defined linear map",
-        "rule": "Per scheme, seeded polynomials p, q of all shapes, scalars a, b in {0,1,-1,random}, with/without degree bound and hiding: commitment == naive term-by-term scalar-multiplication sum over the PUBLIC PARAMETERS (plain window 0.., shifted window (max-d).., PST13 by term lookup, multilinear by hypercube index, Hyrax per row in column-major layout minus r_i*h from the mirrored state, streaming through the H2 hook) plus the blinding image computed from the returned state; a*C(p)+b*C(q) == image(a*p+b*q) + image of the library-combined randomness (and == library commit of the combination when unblinded); commit(0) == identity; PST13 term-order independence; Ligero/Brakedown: metadata == public compute_dimensions, root == Merkle root recomputed in the harness over Blake2s column hashes of the row-encoded matrix (Ligero: rows encoded by the harness itself - Horner evaluation at the powers of the primitive root of the smallest power-of-two domain with at least n_cols * rho_inv points - and compared with the library encoding; Brakedown: library `encode`), equal polynomials equal roots, different polynomials different roots." + DIST,
-        "required_classes": ["naive-msm-plain", "naive-msm-shifted", "additivity", "zero-is-identity", "merkle-root-recomputed", "matrix-layout", "reed-solomon-rows"],
+        "rule": "Per scheme, seeded polynomials p, q of all shapes, scalars a, b in {0,1,-1,random}, with/without degree bound and hiding: commitment == naive term-by-term scalar-multiplication sum over the PUBLIC PARAMETERS (plain window 0.., shifted window (max-d).., PST13 by term lookup, multilinear by hypercube index, Hyrax per row in column-major layout minus r_i*h from the mirrored state, streaming through the H2 hook) plus the blinding image computed from the returned state; a*C(p)+b*C(q) == image(a*p+b*q) + image of the library-combined randomness (and == library commit of the combination when unblinded); commit(0) == identity; PST13 term-order independence; Ligero/Brakedown: metadata == public compute_dimensions and, for Ligero, == the documented shape computed in the harness (n = power of two at or above sqrt(ceil(2 len / t)), m = ceil(len / n)) with lengths at 2 len = t * 4^j and one to either side over-represented, root == Merkle root recomputed in the harness over Blake2s column hashes of the row-encoded matrix (Ligero: rows encoded by the harness itself - Horner evaluation at the powers of the primitive root of the smallest power-of-two domain with at least n_cols * rho_inv points - and compared with the library encoding; Brakedown: library `encode`), equal polynomials equal roots, different polynomials different roots." + DIST,
+        "required_classes": ["naive-msm-plain", "naive-msm-shifted", "additivity", "zero-is-identity", "merkle-root-recomputed", "matrix-layout", "reed-solomon-rows", "documented-matrix-shape"],
         "technique": "runtime monitoring: reference-model oracle (naive MSM / independent Merkle recomputation) on commit outputs",
         "level_text": "Every commitment produced is compared with an independent recomputation from public key elements; the oracle shares no code with the library's MSM, window arithmetic or Merkle tree.",
         "design_ref": "5 (C08)",
@@ -147,7 +147,7 @@ PROPS.update({
 PROPS.update({
     "C14": {
         "title": "Streaming KZG",
-        "rule": "(time-vs-space) seeded degrees 0..256 of all shapes, key sizes >= degree, MSM buffers {1,2,3,7,64,2^20}, 1..8 distinct points: commitment, evaluation, proof of the space prover == time prover == truth; multi-point proof == naive commitment to the quotient by the vanishing polynomial, remainder == naive remainder; verifier (built from either key) accepts the true values and not value+1. (folding-iterators) ALL 130 x 8 cells (length 1..130) x (0..7 challenges): FoldedPolynomialStream values and len() and FoldedPolynomialTree per-level sequences and depth == naive even/odd folding with zero padding. (folding-commit-open) the folded stream handed to the space committer / prover == time prover on the explicitly folded polynomial; commit_folding == per-level time commitments; open_folding proof == sum eta_i * commitment(quotient_i), remainders == naive remainders. A third of the multi-point sets are structured so that the vanishing polynomial has zero coefficients between its ends ({a,-a}, three points summing to zero, three with zero pair sum, cosets of roots of unity)." + DIST,
+        "rule": "(time-vs-space) seeded degrees 0..256 of all shapes, key sizes >= degree, MSM buffers {1,2,3,7,64,2^20}, 1..8 distinct points: commitment, evaluation, proof of the space prover == time prover == truth; multi-point proof == naive commitment to the quotient by the vanishing polynomial, remainder == naive remainder; verifier (built from either key) accepts the true values and not value+1. (folding-iterators) ALL 130 x 8 cells (length 1..130) x (0..7 challenges): FoldedPolynomialStream values and len() and FoldedPolynomialTree per-level sequences and depth == naive even/odd folding with zero padding. (folding-commit-open; one case in twelve with keys of one or two powers) the folded stream handed to the space committer / prover == time prover on the explicitly folded polynomial; commit_folding == per-level time commitments; open_folding proof == sum eta_i * commitment(quotient_i), remainders == naive remainders. A third of the multi-point sets are structured so that the vanishing polynomial has zero coefficients between its ends ({a,-a}, three points summing to zero, three with zero pair sum, cosets of roots of unity)." + DIST,
         "required_classes": ["commit-time-equals-space", "open-time-equals-space", "multi-point-time-equals-space", "space-proof-verifies", "folded-stream", "folded-tree", "folded-stream-commit", "commit-folding", "open-folding"],
         "technique": "runtime monitoring: differential oracle (space vs time prover) + naive reference model of folding and polynomial division",
         "level_text": "Differential and reference-model monitoring over the index-arithmetic-heavy streaming code; the length x depth grid of the folding iterators is enumerated completely in every run.",
@@ -156,7 +156,7 @@ PROPS.update({
     },
     "C15": {
         "title": "PST13 parameters",
-        "rule": "Grid cells (num_vars, max_degree): quick [1,5]^2 plus three cells with max degree 6, thorough the complete [1,6]^2 grid (exhaustive for the combinatorial part), random supported_degree <= max_degree per visit. Per cell: published key set == set of all exponent vectors of total degree <= D (count C(n+D,D), no missing / extra / duplicate); e(G[m*x_i],H) == e(G[m],beta_i H) for every (m,i) with deg(m*x_i) <= D (randomised batching per variable, per-pair fallback); trimmed key == monomials of degree <= supported with identical elements; dense, sparse, top-degree-only and single-monomial mixed polynomials (with and without hiding) commit, open and verify, and value+1 is not accepted; four polynomials (zero, dense, constant, sparse, rotated through the list positions, hiding mixed) opened together at one point verify, one value+1 does not." + DIST,
+        "rule": "Grid cells (num_vars, max_degree): quick [1,5]^2 plus three cells with max degree 6 and the wide cells (66,1), (130,1) (thorough also (65,2)), thorough the complete [1,6]^2 grid (exhaustive for the combinatorial part), random supported_degree <= max_degree per visit. Per cell: published key set == set of all exponent vectors of total degree <= D (count C(n+D,D), no missing / extra / duplicate); e(G[m*x_i],H) == e(G[m],beta_i H) for every (m,i) with deg(m*x_i) <= D (randomised batching per variable, per-pair fallback); trimmed key == monomials of degree <= supported with identical elements; dense, sparse, top-degree-only and single-monomial mixed polynomials (with and without hiding) commit, open and verify, and value+1 is not accepted; four polynomials (zero, dense, constant, sparse, rotated through the list positions, hiding mixed) opened together at one point verify, one value+1 does not." + DIST,
         "required_classes": ["monomial-set", "trapdoor-consistency", "trim-degree-filter", "mixed-monomial-opens", "mixed-monomial-binding", "polynomial-list-opens", "polynomial-list-binding"],
         "technique": "runtime monitoring: structural invariant of the SRS (set equality + pairing identities) + end-to-end oracle on mixed-monomial workloads",
         "level_text": "The multiset enumeration behind the parameters is checked against an independent enumeration on the whole small grid, and the quotient decomposition is exercised on genuinely multivariate polynomials the suite never generates.",
@@ -168,8 +168,8 @@ PROPS.update({
 PROPS.update({
     "C17": {
         "title": "Out-of-domain requests are refused",
-        "rule": GEN + "Every generated in-domain pipeline must not be refused or abort (setup, trim, commit, batch_open, batch_check). Around it, out-of-domain requests with magnitudes at the boundary (supported+1, supported+2, max+1, 0): query for an unknown polynomial (batch_open, batch_check, open_combinations), missing evaluation, missing commitment, degree beyond the key, hiding beyond the key / zero (where declared unsupported) / without RNG, bound below the degree / beyond the key (commit and verifier side), zero degree / zero or missing variables at setup, wrong number of variables (Hyrax, Brakedown, multilinear PST: larger and smaller), point of the wrong length, mismatched labels (Hyrax, IPA), IPA `open` with a polynomial whose (valid) degree bound differs from the one recorded on its commitment (other value, present on one side only), KZG10 direct API incl. batch_check with every combination of its four lists differing in length by one honest entry. Oracle: the outcome is Err or panic (for verification calls: not accept); which of the two is reported in observed_counters, not judged." + DIST,
-        "required_classes": ["in-domain-no-abort", "unknown-polynomial", "missing-evaluation", "degree-beyond-key", "hiding-beyond-key", "hiding-without-rng", "bound-beyond-key", "setup-degree-zero", "wrong-num-vars[larger]", "bound-differs-from-commitment", "wrong-num-vars[smaller]", "point-length-mismatch", "mismatched-labels", "list-lengths-differ"],
+        "rule": GEN + "Every generated in-domain pipeline must not be refused or abort (setup, trim, commit, batch_open, batch_check). Around it, out-of-domain requests with magnitudes at the boundary (supported+1, supported+2, max+1, 0): query for an unknown polynomial (batch_open, batch_check, open_combinations), missing evaluation, missing commitment, degree beyond the key, hiding beyond the key / zero (where declared unsupported) / without RNG, bound below the degree / beyond the key (commit and verifier side), zero degree / zero or missing variables at setup, wrong number of variables (Hyrax, Brakedown, multilinear PST: larger and smaller), point of the wrong length, mismatched labels (Hyrax, IPA), IPA `open` with a polynomial whose (valid) degree bound differs from the one recorded on its commitment (other value, present on one side only), a PST13 commitment presented with a degree bound and a degree-bound part (PST13 supports none), KZG10 direct API incl. batch_check with every combination of its four lists differing in length by one honest entry. Oracle: the outcome is Err or panic (for verification calls: not accept); which of the two is reported in observed_counters, not judged." + DIST,
+        "required_classes": ["in-domain-no-abort", "unknown-polynomial", "missing-evaluation", "degree-beyond-key", "hiding-beyond-key", "hiding-without-rng", "bound-beyond-key", "setup-degree-zero", "wrong-num-vars[larger]", "bound-differs-from-commitment", "wrong-num-vars[smaller]", "point-length-mismatch", "mismatched-labels", "list-lengths-differ", "bound-on-scheme-without-bounds"],
         "technique": "runtime monitoring: boundary-magnitude request injection with outcome classification (Ok / Err / panic) via catch_unwind",
         "level_text": "Each refusal boundary of each scheme is probed from both sides on generated configurations; the in-domain side reuses the honest-workload generator so that a refusal introduced for valid inputs is caught as well.",
         "design_ref": "5 (C17)",
@@ -180,7 +180,7 @@ PROPS.update({
 PROPS.update({
     "C19": {
         "title": "Succinctness",
-        "rule": "Sizes are measured on the canonical compressed serialization (and compared with serialized_size) along geometric ladders: degree 2..256 (Marlin, Sonic, streaming; IPA incl. non-powers of two), (1..5 variables) x (degree 1..3) for PST13, 1..10 variables multilinear PST, 0..10 variables Hyrax, degree 3..16383 / 2..14 variables for Ligero / Brakedown; random degree-bound and hiding settings, 1..3 polynomials, 1..3 points. Laws (exact byte counts): KZG family constant commitment and per-point proof, batch proof == 8 + points * proof, independent of the number of polynomials; PST13 / multilinear PST one group element per variable; IPA 2*log2(d+1) round elements; Hyrax 2^(n/2) row commitments and z entries per polynomial; Ligero / Brakedown commitment 64 bytes and proof <= 4 x min over power-of-two row counts of a byte-exact model of the proof (t paths, t columns, opening vectors) -- evaluated separately where t is below the codeword length and where it is capped by it. Combination proofs (Marlin, Sonic, PST13 - incl. 0*h + p and h + p - h, which are unblinded - and IPA open_combinations over mixed hiding / non-hiding polynomials, equations listed in both orders, own and shared point labels): every per-point proof has the single-opening size, the blinding part present exactly when a hiding polynomial takes part at that point." + DIST,
+        "rule": "Sizes are measured on the canonical compressed serialization (and compared with serialized_size) along geometric ladders: degree 2..256 (Marlin, Sonic, streaming; IPA incl. non-powers of two), (1..5 variables) x (degree 1..3) for PST13, 1..10 variables multilinear PST, 0..10 variables Hyrax, degree 3..16383 / 2..14 variables for Ligero / Brakedown; random degree-bound and hiding settings, 1..3 polynomials, 1..3 points. Laws (exact byte counts): KZG family constant commitment and per-point proof, batch proof == 8 + points * proof, independent of the number of polynomials; PST13 / multilinear PST one group element per variable; IPA 2*log2(d+1) round elements for the REQUESTED supported degree d (universal parameters up to four times larger, tight bound listed as enforced or not); Hyrax 2^(n/2) row commitments and z entries per polynomial; Ligero / Brakedown commitment 64 bytes and proof <= 4 x min over power-of-two row counts of a byte-exact model of the proof (t paths, t columns, opening vectors) -- evaluated separately where t is below the codeword length and where it is capped by it. Combination proofs (Marlin, Sonic, PST13 - incl. 0*h + p and h + p - h, which are unblinded - and IPA open_combinations over mixed hiding / non-hiding polynomials, equations listed in both orders, own and shared point labels): every per-point proof has the single-opening size, the blinding part present exactly when a hiding polynomial takes part at that point." + DIST,
         "required_classes": ["constant-size", "one-element-per-variable", "two-elements-per-round", "square-root-size", "proof-within-4x-of-best-shape[t-below-codeword-length]", "combination-proof-size"],
         "technique": "runtime monitoring: size-law oracle over serialized artefacts along geometric size ladders",
         "level_text": "Every law is an exact byte count (or, for the code-based schemes, a bound against a byte-exact model minimised over matrix shapes) evaluated on real serialized commitments and proofs across three orders of magnitude of polynomial size.",
